@@ -154,6 +154,9 @@ func runAll(root string) int {
 		ids = append(ids, id)
 	}
 	sort.Strings(ids)
+	if only := os.Getenv("SLUGCHECK_ONLY"); only != "" && props[only] != nil {
+		ids = []string{only} // the thorough tier's self-test asks for one property per variant, in parallel processes
+	}
 	for _, id := range ids {
 		func() {
 			defer func() {
